@@ -5,6 +5,7 @@ pub mod c01;
 pub mod browser;
 pub mod c02;
 pub mod c03;
+pub mod c04;
 pub mod c05;
 pub mod c06;
 pub mod responder;
@@ -22,6 +23,7 @@ pub fn run(id: &str, tier: Tier) -> i32 {
         "C01" => c01::run(tier),
         "C02" => c02::run(tier),
         "C03" => c03::run(tier),
+        "C04" => c04::run(tier),
         "C05" => c05::run(tier),
         "C06" => c06::run(tier),
         "C07" => c07::run(tier),
@@ -44,6 +46,7 @@ pub fn replay(id: &str, file: &Path) -> i32 {
         "C01" => c01::replay(file),
         "C02" => c02::replay(file),
         "C03" => c03::replay_file(file),
+        "C04" => c04::replay_file(file),
         "C05" => c05::replay_file(file),
         "C06" => c06::replay(file),
         "C07" => c07::replay(file),
